@@ -115,6 +115,33 @@ def rand_malformed(r, maxlen=24) -> str:
     return "".join(out)
 
 
+DELIM_ATOMS = ["*", "**", "***", "_", "__", "~", "~~", "~~~", "~~~~", "[", "]", "](u)", "(u)", "![", "`", "``", "a", "b", " ",
+               "\\", "\n", "<", ">", "x*", "*y", "_z", "[]", "][r]", "&amp;", "\"", "'"]
+
+
+def rand_delims(r) -> str:
+    """delimiter-heavy inline text: runs of * _ ~ [ ] ( ) mixed with code spans and links"""
+    n = r.randint(2, 12)
+    s = "".join(r.choice(DELIM_ATOMS) for _ in range(n))
+    k = r.random()
+    if k < 0.15:
+        s = "> " + s
+    elif k < 0.3:
+        s = "- " + s
+    elif k < 0.4:
+        s = "|" + s + "|x|\n|-|-|\n|" + s + "|y|"
+    elif k < 0.5:
+        s = s + "\n\n[r]: /u\n"
+    return s + ("\n" if r.random() < 0.7 else "")
+
+
+def delim_sweep(maxlen: int, atoms=("~~", "~", "*", "[", "](u)", "a")):
+    """bounded-exhaustive delimiter strings: every concatenation of up to `maxlen` atoms"""
+    for k in range(1, maxlen + 1):
+        for combo in itertools.product(atoms, repeat=k):
+            yield "".join(combo)
+
+
 _SPEC_CACHE: list[str] | None = None
 
 
@@ -173,12 +200,15 @@ def mutate(r, s: str) -> str:
 
 
 def doc_stream(r, n: int, maxlines=8):
-    """Mixed stream: 60 % G-doc, 20 % mutated spec/fixture inputs, 10 % spec verbatim, 10 % malformed."""
+    """Mixed stream: 45 % G-doc, 15 % delimiter runs, 20 % mutated spec/fixture inputs, 10 % spec verbatim,
+    10 % malformed."""
     spec = spec_inputs()
     for _ in range(n):
         k = r.random()
-        if k < 0.6 or not spec:
+        if k < 0.45 or not spec:
             yield rand_doc(r, maxlines)
+        elif k < 0.6:
+            yield rand_delims(r)
         elif k < 0.8:
             yield mutate(r, r.choice(spec))
         elif k < 0.9:
